@@ -119,6 +119,11 @@ pub fn battery() -> Vec<Formula> {
                 }
             }
         }
+        // a reference to each sheet in the right and in the left operand of every binary operator family and under a sign
+        for t in 0..4 {
+            push("operand-positions", vec![t], format!("=2^{}!A1+{}!A2^2-(3/{}!A1)&\"x\"", bare(t), bare(t), bare(t)));
+            push("operand-positions", vec![t], format!("=IF(1<{}!A1,-{}!A2,{}!A1%)", bare(t), bare(t), bare(t)));
+        }
         push("multi-arg-call", vec![0, 2], format!("=SUM({}!A1,{}!A2,0.5)", bare(0), bare(2)));
         push("multi-arg-call", vec![1, 3], format!("=SUM({}!A1,{}!A2,0.5)", bare(1), bare(3)));
         for t in 0..3 {
